@@ -87,6 +87,14 @@ def families(tier):
             mem.append((t % el, t % el))
             mem.append((t % el.lower(), t % el.lower()))
     fams.append(("every-element", mem))
+    # runs of one repeated character in every field of a symbol, each ending in a character that cannot finish the symbol
+    # (nested quantifiers in a hand-written pattern make matching time exponential in the length of such a run)
+    runs = []
+    for ch in "+-@H:0#=/\\%.()1Cc*$":
+        for n in (1, 2, 5, 10, 15, 20, 24, 28, 32, 40, 100, 1000):
+            for t in ("[C][N%s?expl][C]", "[C][N%sexpl][C]", "[N%s]", "[N%s?]", "[%sC]", "[C][=C%s", "%s[C]", "[C][Branch1_%s][C]", "[C@%s][C]"):
+                runs.append(("%r x %d in %s" % (ch, n, t), t % (ch * n)))
+    fams.append(("long-runs", runs))
     fams.append(("oversized-index", [("n=%d" % n, "[C][C]" + "[Ring3][P][P][P]" * n) for n in (1, 5, 50, 500)]))
     return fams
 
